@@ -17,8 +17,9 @@ func init() {
 		ID:       "C15",
 		Generate: generate,
 		Replay: func(raw json.RawMessage, r *mon.R) {
-			var s string
-			json.Unmarshal(raw, &s)
+			var ms mon.Str
+			json.Unmarshal(raw, &ms)
+			s := string(ms)
 			Check(s, r)
 		},
 		Rule: "inputs: every string of <=5 (quick) / <=6 (thorough) symbols over a 15-symbol alphabet of separators, quotes, escapes, comment and number/operator pieces; " +
@@ -31,6 +32,9 @@ func init() {
 }
 
 var alpha = []string{";", "'", "\"", "`", "\\", "/", "\n", "a", "0", "x", "e", ".", "=", "!", "<"}
+
+// second alphabet: carriage return, BOM and other runes next to separators
+var alphaB = []string{";", "\r", "\ufeff", "\ufffd", "\u2020", "'", "\"", "\\", "a", "\n", "/", "`"}
 
 var multi = []string{
 	"let a = 1; let b = 'x;y'; T | where a == b // c;d\n | take 1",
@@ -56,6 +60,19 @@ func generate(w *mon.W) {
 		w.Do(s, func(r *mon.R) { Check(s, r) })
 		return !w.Stopped()
 	})
+	gen.EnumStrings(alphaB, maxLen, func(s string) bool {
+		w.Do(s, func(r *mon.R) { Check(s, r) })
+		return !w.Stopped()
+	})
+	// long runs of faulty and of well-formed statements, then one more statement
+	for _, unit := range []string{"!;", "T | where (;", "let = 1;", "T | bogus;", "#;", "T | take 1.5;", "T;", "let a = 1;", ";"} {
+		for _, k := range []int{1, 5, 9, 10, 11, 12, 20, 50, 100} {
+			for _, tail := range []string{"Events | count", "let z = 1", "T | where (", ""} {
+				s := strings.Repeat(unit, k) + tail
+				w.Do(s, func(r *mon.R) { Check(s, r) })
+			}
+		}
+	}
 	progs := append(append([]string{}, multi...), gen.Seeds()...)
 	for _, p := range progs {
 		for i := 0; i <= len(p); i++ {
@@ -88,7 +105,7 @@ func hasTokens(toks []parser.Token) bool { return len(toks) > 0 }
 
 // Check decides one input.
 func Check(s string, r *mon.R) {
-	r.Case = s
+	r.Case = mon.Str(s)
 	toks, o := mon.Scan(s)
 	parts, o2 := mon.Split(s)
 	if o.Anomalous() || o2.Anomalous() {
